@@ -2,7 +2,7 @@
 import re
 
 from core import AnchorMissing, glob_match, match_any
-from engine import (MPT, Sink, find_guards, accepted_relation, origins, success_reachable,
+from engine import (MPT, Sink, fn_origins, find_guards, accepted_relation, origins, success_reachable,
                     CMP_REL, ALL3, who_calls, who_constructs, track_result, flows_forward,
                     return_assigns, ok_payload_variant, ty_class, loop_body_entry)
 
@@ -150,7 +150,7 @@ class Ctx:
                 if argi >= len(c.args):
                     continue
                 nsites += 1
-                og = origins(body, c.args[argi], through_calls)
+                og = fn_origins(g, c.args[argi], through_calls)
                 miss = [r for r in require if not any(glob_match(r, o) for o in og)]
                 bad = [o for o in og if any(glob_match(x, o) for x in forbid)]
                 if miss or bad:
@@ -216,3 +216,80 @@ class Ctx:
         self.report.ok(clause, 'R3', inst, '%d constructing fn(s): %s' % (
             len(allowed), sorted({fn_short(f.root().name) for f in allowed})[:10]))
         return True
+
+
+    # ---- a relation that some function in scope establishes, and the entry must pass through
+    def quiet_gate(self, f, pred, required, success=None, per_item=False, through_calls=True):
+        """guard_gate without reporting: (holds, guards)."""
+        lf = f.logic()
+        body = lf.body
+        if success is None:
+            success = {'result': 'ok', 'option': 'some', 'bool': 'true'}.get(ty_class(lf.ret))
+            if success is None:
+                return False, []
+        try:
+            gs = [g for g in find_guards(body, through_calls) if pred(g)]
+        except RecursionError:
+            return False, []
+        if not gs:
+            return False, []
+        removed = set()
+        for g in gs:
+            rel_t = CMP_REL[g.op]
+            rel_f = ALL3 - rel_t
+            if rel_t <= required:
+                removed |= g.true_edges
+            if rel_f <= required:
+                removed |= g.false_edges
+        starts = [0]
+        if per_item:
+            starts = [h for h in (loop_body_entry(body, g.bb) for g in gs) if h is not None]
+            if not starts:
+                return False, gs
+        return (not success_reachable(body, removed, success, starts=starts)), gs
+
+    def establishers(self, scope_glob, pred, required, per_item=False):
+        """Fns in scope whose success implies the relation (cached per pred identity)."""
+        key = (scope_glob, getattr(pred, '__name__', id(pred)), tuple(sorted(required)))
+        cache = getattr(self, '_est_cache', None)
+        if cache is None:
+            cache = self._est_cache = {}
+        if key in cache:
+            return cache[key]
+        out = []
+        for f in self.ws.find_all(scope_glob):
+            if f.kind == 'closure' or f.unit.tag != 'lib':
+                continue
+            ok, gs = self.quiet_gate(f, pred, required, per_item=per_item)
+            if ok:
+                out.append(f)
+        cache[key] = out
+        return out
+
+    def relation_gate(self, clause, entry_pat, desc, scope_glob, pred, required, ret_filter=None, success=None,
+                      key=None):
+        """Success of the entry implies relation `required` on a comparison matching `pred`, established
+        either in the entry itself or in a helper (any name) of `scope_glob` that the entry must pass."""
+        f = self.try_fn(clause, entry_pat)
+        if f is None:
+            return None
+        inst = '%s => %s' % (fn_short(f.name), desc)
+        k = key or ('%s=>%s' % (fn_short(f.name), desc))
+        ests = self.establishers(scope_glob, pred, required)
+        if not ests:
+            self.report.violation(clause, 'R6', inst, k, 'no function in %s establishes the relation %s %s on success'
+                                  % (scope_glob, desc, sorted(required)), f.loc())
+            return False
+        if any(e.name == f.name for e in ests) and ret_filter is None:
+            self.report.ok(clause, 'R6', inst, 'established in the entry itself', f.loc())
+            return True
+        sink = Sink(desc, [e.name for e in ests], 'ok')
+        r = self.mpt.enforces(f, sink, success, ret_filter=ret_filter)
+        if r.holds:
+            self.report.ok(clause, 'R1+R6', inst, 'established by %s; passed at %s' % (
+                [fn_short(e.name) for e in ests],
+                ['%s:%s' % (fn_short(s['fn']), s['line']) for s in r.sites[:3]]), f.loc())
+            return True
+        self.report.violation(clause, 'R1+R6', inst, k, 'relation is established by %s but: %s' % (
+            [fn_short(e.name) for e in ests], ' | '.join(r.problems)[:1200]), f.loc())
+        return False
